@@ -11,7 +11,8 @@ import (
 
 type ScenarioStat struct {
 	Scenario    string   `json:"scenario"`
-	Bounds      string   `json:"bounds_completed"`
+	Bounds      string   `json:"bounds"`
+	Completed   bool     `json:"completed"` // every execution within these bounds was explored
 	Executions  int64    `json:"executions"`
 	States      int64    `json:"states"`
 	Transitions int64    `json:"transitions"`
@@ -35,7 +36,7 @@ func New(r *report.Run) *Collector { return &Collector{R: r, Exhaustive: true} }
 func (c *Collector) Add(res *vsched.Result) {
 	r := c.R
 	r.MC(res.States, res.Steps, res.Executions)
-	st := ScenarioStat{Scenario: res.Scenario, Bounds: res.Bounds, Executions: res.Executions, States: res.States,
+	st := ScenarioStat{Scenario: res.Scenario, Bounds: res.Bounds, Completed: !res.Truncated && res.StepLimited == 0, Executions: res.Executions, States: res.States,
 		Transitions: res.Steps, Pruned: res.Pruned, MaxDepth: res.MaxDepth, Outcomes: len(res.Outcomes),
 		Truncated: res.Truncated, StepLimited: res.StepLimited, TopOutcomes: res.SortedOutcomes(4)}
 	c.Stats = append(c.Stats, st)
@@ -66,6 +67,12 @@ func (c *Collector) Add(res *vsched.Result) {
 	for _, e := range res.Infra {
 		r.Infra("%s: %s", res.Scenario, e)
 	}
+}
+
+// Skipped records that a scenario's target level was not started because a lower level already ran out of budget.
+func (c *Collector) Skipped(scenario string, target vsched.Bounds) {
+	c.Stats = append(c.Stats, ScenarioStat{Scenario: scenario, Bounds: target.String(), Truncated: true})
+	c.Exhaustive = false
 }
 
 func (c *Collector) Finish() int {
